@@ -60,7 +60,7 @@ def workload(ctx, lentil):
     rng = ctx.rng
     D = lentil.detector
     log = Log(ctx)
-    n = 40 if ctx.tier == 'quick' else 300
+    n = ctx.count(40, 300)
     N = 200000
 
     def scramble():
@@ -191,7 +191,7 @@ def workload(ctx, lentil):
                   desc, scale=rms)
 
     # ---- cosmic rays over many global states -------------------------------------------------------------------------
-    nc = 50 if ctx.tier == 'quick' else 500
+    nc = ctx.count(50, 500)
     for i in range(nc):
         state = ctx.seed * 1000003 + ctx.shard * 100003 + i
         shape = gen.rshape(rng, 2, 24)
